@@ -83,7 +83,13 @@ func init() {
 					m := ci.Common().Method.Name()
 					seen[m] = true
 					want, known := allowed[m]
-					c.Check(known && c.P.FuncName(fn) == want, ks.key("netConn."+m+"@"+c.P.FuncName(fn)), c.Pos(in), "netConn."+m+" only in "+want,
+					okOwner := known && c.P.FuncName(fn) == want
+					if known && !okOwner {
+						if wf := c.P.Fn(want); wf != nil && c.P.OwnedBy(fn, map[*ssa.Function]bool{wf: true, enclosingNamed(wf): true}) {
+							okOwner = true // a private helper (or closure) of the single owner
+						}
+					}
+					c.Check(okOwner, ks.key("netConn."+m+"@"+c.P.FuncName(fn)), c.Pos(in), "netConn."+m+" only in "+want,
 						"netConn."+m+" used outside its single owner: a second reader/writer/closer of the transport")
 				})
 			}
@@ -160,7 +166,7 @@ func init() {
 					if _, isDefer := in.(*ssa.Defer); isDefer {
 						return false
 					}
-					return pred(in)
+					return pred(in) || helperAlwaysPasses(in, pred, 0)
 				})
 				c.Check(ok, "exit:"+key, c.P.Pos(ex.Pos()), "every path through the exit closure "+what, "a path through the read-loop exit closure does not "+what)
 			}
@@ -206,17 +212,23 @@ func init() {
 			streams := c.field("Association", "streams")
 			un := c.Fn("Association.unregisterStream")
 			okLoop := false
-			for _, uc := range callsIn(ex, un) {
+			for _, uc := range callsInDeep(ex, un, 1) {
 				if len(loopBlocks(uc.Block())) == 0 {
 					continue
 				}
-				forEachInstr(ex, func(in ssa.Instruction) {
+				forEachInstr(uc.Parent(), func(in ssa.Instruction) {
 					if rg, ok := in.(*ssa.Range); ok && IsLoadOf(streams)(rg.X) {
 						okLoop = true
 					}
 				})
-				// the error handed over is the loop's exit error
-				_, isFree := unconv(callArg(uc, 2)).(*ssa.UnOp)
+				// the error handed over is the loop's exit error (captured variable, or the parameter it was passed as)
+				ev := unconv(callArg(uc, 2))
+				if p, isP := ev.(*ssa.Parameter); isP {
+					if a := through(p); a != nil {
+						ev = unconv(a)
+					}
+				}
+				_, isFree := ev.(*ssa.UnOp)
 				c.Check(isFree, "exit:stream-gets-close-error", c.Pos(uc), "unregisterStream receives the read loop's closeErr", "streams are not given the read loop's exit error")
 			}
 			c.Check(okLoop, "exit:unregisters-all-streams", c.P.Pos(ex.Pos()), "unregisterStream is called in a range over a.streams", "not every stream is unregistered on exit")
@@ -403,7 +415,8 @@ func init() {
 						}
 						c.Check(okOnce, key, c.Pos(in), "closed inside "+onceOf[f.Name()]+".Do", "close("+f.Name()+") outside its sync.Once: a second close panics")
 					case "acceptCh", "readLoopCloseCh":
-						c.Check(name == "Association.readLoop$1", key, c.Pos(in), "closed in the read loop's exit closure (runs once per association)", "close("+f.Name()+") outside the read-loop exit closure")
+						exitFn := c.P.Fn("Association.readLoop$1")
+						c.Check(name == "Association.readLoop$1" || (exitFn != nil && fn.Parent() == nil && c.P.OwnedBy(fn, map[*ssa.Function]bool{exitFn: true}) && len(c.P.CallSitesOf(fn)) == 1), key, c.Pos(in), "closed in the read loop's exit closure (runs once per association)", "close("+f.Name()+") outside the read-loop exit closure")
 					case "writeNotify", "readTimeoutCancel":
 						// followed in the same block by a store replacing the field
 						// on every path from the close, the field is overwritten before the function returns
@@ -450,6 +463,18 @@ func init() {
 			for _, bs := range c.blockingSites() {
 				k := c.P.FuncName(bs.Fn) + "|" + bs.Kind
 				want, ok := terminationTable[k]
+				if !ok {
+					// a private helper of a function with a reviewed site of the same kind carries that review
+					for tk := range terminationTable {
+						parts := strings.SplitN(tk, "|", 2)
+						if parts[1] != bs.Kind {
+							continue
+						}
+						if of := c.P.Fn(parts[0]); of != nil && of != bs.Fn && c.P.OwnedBy(bs.Fn, map[*ssa.Function]bool{of: true}) {
+							k, want, ok = tk, terminationTable[tk], true
+						}
+					}
+				}
 				key := ks.key("block:" + k)
 				if !ok {
 					c.Fail(key, c.Pos(bs.Instr), "blocking "+bs.Kind+" on "+strings.Join(bs.Chans, ",")+" is not in the termination table: review how teardown ends it")
@@ -567,27 +592,29 @@ func init() {
 			wl := c.Fn("Association.writeLoop")
 			cnc := c.Fn("Association.closeNetConn")
 			found := false
-			forEachInstr(wl, func(in ssa.Instruction) {
-				ifi, ok := in.(*ssa.If)
-				if !ok {
-					return
-				}
-				b, ok := ifi.Cond.(*ssa.BinOp)
-				if !ok || b.Op != token.NEQ || !isNilConst(b.Y) {
-					return
-				}
-				ex, ok := b.X.(*ssa.Extract)
-				if !ok {
-					return
-				}
-				call, ok := ex.Tuple.(*ssa.Call)
-				if !ok || !call.Call.IsInvoke() || call.Call.Method.Name() != "Write" {
-					return
-				}
-				found = true
-				ok2, bad := MustPassFromBlock(ifi.Block().Succs[0], c.P.CallTargetPred(0, cnc), PathOpts{})
-				c.Check(ok2, "write-error-closes-transport", c.Pos(ifi), "netConn.Write error ⇒ closeNetConn()", "a write-error path leaves the transport open (reader stays blocked): "+c.P.InstrPos(bad))
-			})
+			for _, wg := range c.P.Region(wl) {
+				forEachInstr(wg, func(in ssa.Instruction) {
+					ifi, ok := in.(*ssa.If)
+					if !ok {
+						return
+					}
+					b, ok := ifi.Cond.(*ssa.BinOp)
+					if !ok || b.Op != token.NEQ || !isNilConst(b.Y) {
+						return
+					}
+					ex, ok := b.X.(*ssa.Extract)
+					if !ok {
+						return
+					}
+					call, ok := ex.Tuple.(*ssa.Call)
+					if !ok || !call.Call.IsInvoke() || call.Call.Method.Name() != "Write" {
+						return
+					}
+					found = true
+					ok2, bad := MustPassFromBlock(ifi.Block().Succs[0], c.P.CallTargetPred(0, cnc), PathOpts{})
+					c.Check(ok2, "write-error-closes-transport", c.Pos(ifi), "netConn.Write error ⇒ closeNetConn()", "a write-error path leaves the transport open (reader stays blocked): "+c.P.InstrPos(bad))
+				})
+			}
 			c.Check(found, "write-error-branch", c.P.Pos(wl.Pos()), "write error is tested", "netConn.Write error is not tested")
 		}})
 
